@@ -1116,3 +1116,147 @@ func lenMayChangeBetween(body *ast.BlockStmt, base string, from, to token.Pos) b
 	})
 	return changed
 }
+
+// ---- C12.R11: the depth walk follows every jump ----
+//
+// compile.stackDepthWalk computes the declared stack size by walking the instruction stream and, at every jump
+// instruction, walking the destination as well. Code that is reached only through a jump operand (the code after a loop
+// whose else clause leaves by `continue`, a handler) is walked only by that recursion. The rule: in the loop over the
+// instructions the recursive call is made for every jump instruction whatever its opcode — neither the call nor any
+// exit from the iteration that precedes it (continue / break / goto / return) is governed by a condition that names an
+// opcode. The opcode decides the depth at the target and whether the fall-through is dead, never whether the target is
+// walked.
+func runDepthWalkFollows(c *Ctx, r *Rep) {
+	m := getVMModel(c)
+	fd := c.MethodDeclX("compile", "Instructions", "stackDepthWalk")
+	if fd == nil {
+		r.undecided("compile|stackDepthWalk", token.NoPos, "function not found")
+		return
+	}
+	p := c.MustPkg("compile")
+	info := p.TypesInfo
+	self := info.Defs[fd.Name]
+	var loop *ast.RangeStmt
+	ast.Inspect(fd.Body, func(n ast.Node) bool {
+		if rs, ok := n.(*ast.RangeStmt); ok && loop == nil {
+			loop = rs
+		}
+		return true
+	})
+	if loop == nil {
+		r.undecided("compile|stackDepthWalk|loop", fd.Pos(), "no range loop over the instructions")
+		return
+	}
+	// opcode constants named by a condition
+	opsIn := func(e ast.Node) []string {
+		var ops []string
+		if e == nil {
+			return nil
+		}
+		ast.Inspect(e, func(n ast.Node) bool {
+			if x, ok := n.(ast.Expr); ok {
+				if name, ok := m.opcodeOf(info, x); ok {
+					if _, isLit := x.(*ast.BasicLit); !isLit {
+						ops = append(ops, name)
+					}
+				}
+			}
+			return true
+		})
+		return ops
+	}
+	var stack []ast.Node
+	var recPos token.Pos
+	var recGov []string
+	type exit struct {
+		pos  token.Pos
+		what string
+		gov  []string
+	}
+	var exits []exit
+	governing := func() []string {
+		var ops []string
+		for i := len(stack) - 2; i >= 0; i-- {
+			child := stack[i+1]
+			switch par := stack[i].(type) {
+			case *ast.IfStmt:
+				if par.Body == child || par.Else == child {
+					ops = append(ops, opsIn(par.Cond)...)
+				}
+			case *ast.CaseClause:
+				ops = append(ops, opsIn(&ast.CompositeLit{Elts: par.List})...)
+				// a default arm of a switch over opcodes is governed by the other arms
+				if par.List == nil && i > 1 {
+					if sw, ok := stack[i-2].(*ast.SwitchStmt); ok {
+						for _, cl := range sw.Body.List {
+							ops = append(ops, opsIn(&ast.CompositeLit{Elts: cl.(*ast.CaseClause).List})...)
+						}
+					}
+				}
+			}
+			if stack[i] == ast.Node(loop.Body) {
+				break
+			}
+		}
+		return uniq(ops)
+	}
+	ast.Inspect(loop.Body, func(n ast.Node) bool {
+		if n == nil {
+			stack = stack[:len(stack)-1]
+			return true
+		}
+		stack = append(stack, n)
+		switch x := n.(type) {
+		case *ast.FuncLit:
+			stack = stack[:len(stack)-1]
+			return false
+		case *ast.CallExpr:
+			if sel, ok := x.Fun.(*ast.SelectorExpr); ok && info.Uses[sel.Sel] == self && recPos == token.NoPos {
+				recPos = x.Pos()
+				recGov = governing()
+			}
+		case *ast.BranchStmt:
+			// a break that only leaves a switch/select is not an exit from the iteration
+			if x.Tok == token.BREAK && x.Label == nil {
+				for i := len(stack) - 2; i >= 0; i-- {
+					switch stack[i].(type) {
+					case *ast.SwitchStmt, *ast.TypeSwitchStmt, *ast.SelectStmt:
+						return true
+					case *ast.ForStmt, *ast.RangeStmt:
+						i = -1
+					}
+				}
+			}
+			exits = append(exits, exit{x.Pos(), x.Tok.String(), governing()})
+		case *ast.ReturnStmt:
+			exits = append(exits, exit{x.Pos(), "return", governing()})
+		}
+		return true
+	})
+	if recPos == token.NoPos {
+		r.bad("compile|stackDepthWalk|recursion", loop.Pos(), "the loop over the instructions never walks a jump's destination (no recursive call): code reached only through a jump is not accounted for in the declared stack size")
+		return
+	}
+	r.check(len(recGov) == 0, "compile|stackDepthWalk|walk of the destination", recPos,
+		"the recursive walk of the jump destination is made whatever the opcode",
+		fmt.Sprintf("the recursive walk of the jump destination is governed by a test on the opcode (%s): for the opcodes it excludes, code reached only through the jump operand is never walked and its stack use is missing from the declared stack size", strings.Join(recGov, ", ")))
+	bad := []string{}
+	var badPos token.Pos
+	for _, e := range exits {
+		if e.pos < recPos && len(e.gov) > 0 {
+			bad = append(bad, fmt.Sprintf("`%s` at %s under a test on %s", e.what, c.Pos(e.pos), strings.Join(e.gov, ", ")))
+			if badPos == token.NoPos {
+				badPos = e.pos
+			}
+		}
+	}
+	r.check(len(bad) == 0, "compile|stackDepthWalk|exits before the walk", badPos,
+		"no exit from the iteration that precedes the walk of the destination depends on the opcode",
+		fmt.Sprintf("the iteration is left before the jump destination is walked, depending on the opcode: %s; for those opcodes code reached only through the jump operand (e.g. what follows a loop whose else clause ends in `continue`) is never walked, so the declared stack size can be too small", strings.Join(bad, "; ")))
+}
+
+func init() {
+	register(&Rule{ID: "C12.R11", Prop: "C12", Floor: 2,
+		Doc: "compile.stackDepthWalk walks the destination of every jump instruction: neither the recursive call nor an exit from the iteration that precedes it is governed by a condition naming an opcode",
+		Run: runDepthWalkFollows})
+}
